@@ -1,5 +1,5 @@
 """C14: hypot is symmetric, never NaN/negative on the domain, and computed without intermediate wrap (decided);
-the 2 ulp / 1.5e-4 accuracy bounds are not decided."""
+the 2 ulp / 1.5e-4 accuracy bounds from the exact-real value and a deviation interval (checks/fxdev.py)."""
 import random
 from . import common, lib
 from .lib import M, E, sym
@@ -110,11 +110,168 @@ def run(tier, seed):
                 else:
                     V.inconc("w_hypot [%s]: '%s' in '%s' may wrap modulo 2^64 (exact range up to %d) and no witness found" % (
                         cfg, i.op, text, max(h for _, h in may[ln])))
+            if cfg in ("K17", "K17A") or tier != "quick":
+                accuracy(V, ctx, cfg, lines, seed)
         except Broken as e:
             V.broke("%s: %s" % (cfg, e))
     expl = ("DECIDED on |a|,|b| < 2^47 raw: hypot(a,b) == hypot(b,a) == hypot(|a|,|b|) by summary equivalence of the inlined programs "
             "(under the abacus build the sqrt loop, a verified integer square root, enters as the value-numbered summary isqrt(N)); for K17, K17A and K20: the result interval is inside [0, max] on every path (never NaN, never negative); and "
             "every add/mul/shl that hypot itself performs on the unsigned operands stays below 2^64 (wrap events are recorded by the "
             "abstract interpreter per instruction; an instruction whose exact result range reaches 2^64 is confirmed by a concrete witness). "
-            "NOT DECIDED: the 2 ulp / 1.5e-4 accuracy bounds.")
+            "Accuracy (non-negative quadrant; the other quadrants by the exact symmetry): on every path the exact-real value of the result - all "
+            "floors, truncations and roundings removed, kept symbolically - is c*sqrt(P) with c^2 P == a^2 + b^2 as polynomials, i.e. exactly "
+            "the function of the property, so there is no method error; the deviation of the actual result from it is bounded on boxes by "
+            "propagating the ranges of the rounding noise (bits dropped by the scaling shifts and by >>16, the integer square root's (-1, 0] "
+            "or the rounded std::sqrt's +-(1/2 + 2^-19)) through the operations with interval sensitivities: at most 2 raw units where both "
+            "operands are below 2^30 raw, at most 1.5e-4 of the smallest true value of the box elsewhere. The paths on which hypot's own "
+            "addition wraps (the recorded finding) are excluded from this clause: their exact-real value is not sqrt(a^2+b^2).")
     return V.finish("other", expl, "./fx check C14 --tier %s" % tier, extra={"configs": plan})
+
+
+# ------------------------------------------------------------------ accuracy: 2 ulp / relative 1.5e-4
+def _cuts(lo, hi, ratio_num=19, ratio_den=16):
+    """cut [lo, hi] into cells whose ends grow geometrically (ratio 19/16) once past hi/64"""
+    out = []
+    a = lo
+    first = max(lo, hi >> 6)
+    if first > lo:
+        out.append((lo, first - 1))
+        a = first
+    while a <= hi:
+        b = min(hi, max(a, a * ratio_num // ratio_den))
+        out.append((a, b))
+        a = b + 1
+    return out
+
+
+def accuracy(V, ctx, cfg, hypot_lines, seed):
+    from fractions import Fraction
+    from . import fxdev
+    from .fxnum import Unsupported, _sqrt_frac
+    import math
+    r = ctx.run("w_hypot", [("i", 0, T47), ("i", 0, T47)])
+    T30 = 1 << 30
+    REL = Fraction(15, 100000)
+    ncell = nskip = 0
+    worst_abs = worst_rel = None
+    fails = []
+    tiny = {}
+    memo = {}
+    from fxai import pipeline as P
+    target = fxdev.Poly.var(0, 2).mul(fxdev.Poly.var(0, 2)).add(fxdev.Poly.var(1, 2).mul(fxdev.Poly.var(1, 2)))
+    for p in r.paths:
+        st = p.state
+        box = [st.bounds["p0"], st.bounds["p1"]]
+        wraps_here = any(n[0] == "uwrap" and n[1] in hypot_lines for n in st.notes)
+        # exact-real value on the whole path box: must be sqrt(a^2 + b^2) identically
+        try:
+            ex, _ = fxdev.path_dev(p.ret, 2, box)
+            ident = None
+            if isinstance(ex, fxdev.SqrtOf):
+                d = ex.p.scale(ex.c * ex.c).add(target.scale(-1))
+                for k in (0, 1):
+                    if box[k][0] == box[k][1]:
+                        d = d.subst(k, box[k][0])
+                ident = d.is_zero() and ex.c >= 0
+            elif isinstance(ex, fxdev.Poly):
+                # a polynomial result: only acceptable where it is the exact root (e.g. the constant 0 at (0, 0))
+                lo_, hi_ = ex.rng(box)
+                tl, th = target.rng(box)
+                ident = lo_ == hi_ and tl == th and lo_ >= 0 and lo_ * lo_ == tl
+        except Unsupported as e:
+            ex, ident = None, str(e)
+        npts = (box[0][1] - box[0][0] + 1) * (box[1][1] - box[1][0] + 1)
+        if ident is not True and npts <= 256:
+            # a handful of tiny arguments, constant-folded by the engine: each point by constant propagation against the integer oracle
+            for a in range(box[0][0], box[0][1] + 1):
+                for b in range(box[1][0], box[1][1] + 1):
+                    if (a, b) in tiny:
+                        continue
+                    rs = r.an.run(P.init_state(r.an.fn, [("i", a, a), ("i", b, b)]))
+                    vs = set(lib.ret_rng(z) for z in rs.paths)
+                    okp = False
+                    if len(vs) == 1 and not rs.alarms:
+                        l_, h_ = next(iter(vs))
+                        t2 = a * a + b * b
+                        okp = l_ == h_ and max(l_ - 2, 0) ** 2 <= t2 <= (l_ + 2) ** 2
+                    tiny[(a, b)] = okp
+                    V.oblige(okp)
+                    ncell += 1
+                    if not okp:
+                        fails.append(([(a, a), (b, b)], p, "value at the argument pair not within 2 ulp by constant propagation"))
+            continue
+        if ident is not True:
+            if wraps_here:
+                nskip += 1        # the recorded finding: hypot's own addition wraps on this path
+                continue
+            V.oblige(False)
+            fails.append((box, p, "exact-real value is not sqrt(a^2+b^2): %s" % (ident if isinstance(ident, str) else repr(ex)[:120])))
+            continue
+        if isinstance(ex, fxdev.Poly):
+            V.oblige(True)
+            ncell += 1
+            continue
+        for ca in _cuts(*box[0]):
+            for cb in _cuts(*box[1]):
+                cell = [ca, cb]
+                small = ca[1] < T30 and cb[1] < T30
+                tmin = _sqrt_frac(Fraction(ca[0]) ** 2 + Fraction(cb[0]) ** 2, False)
+                mk = (p.ret.lin.key(), ca, cb)
+                if mk in memo:
+                    continue            # the same form on the same cell (another path of the same shape)
+                try:
+                    _, dv = fxdev.path_dev(p.ret, 2, cell)
+                    D = max(abs(dv[0]), abs(dv[1]))
+                    ok = D <= 2 if small else D <= REL * tmin
+                except Unsupported as e:
+                    D, ok = None, False
+                memo[mk] = ok
+                V.oblige(ok)
+                ncell += 1
+                if ok:
+                    if small:
+                        if worst_abs is None or D > worst_abs[0]:
+                            worst_abs = (D, cell)
+                    else:
+                        q = D / tmin
+                        if worst_rel is None or q > worst_rel[0]:
+                            worst_rel = (q, cell)
+                else:
+                    fails.append((cell, p, "deviation bound %s, allowed %s" % (None if D is None else float(D), 2 if small else float(REL * tmin))))
+    info = {"cells": ncell, "paths_with_wrapping_addition_excluded": nskip,
+            "worst_abs_deviation_small_operands": None if worst_abs is None else [float(worst_abs[0]), worst_abs[1]],
+            "worst_relative_deviation": None if worst_rel is None else [float(worst_rel[0]), worst_rel[1]]}
+    V.cover.setdefault("accuracy", {})[cfg] = info
+    if ncell < 500:
+        V.broke("w_hypot [%s]: only %d accuracy cells" % (cfg, ncell))
+    # failing cells: a concrete argument pair violating the clause makes it a violation, otherwise it stays undecided
+    rnd = random.Random(seed)
+    reported = 0
+    for cell, p, why in fails[:30]:
+        hit = None
+        for _ in range(300):
+            a = rnd.randint(*cell[0])
+            b = rnd.randint(*cell[1])
+            o = r.conc((a, b))
+            if o[0] != "ret":
+                hit = (a, b, o)
+                break
+            t2 = a * a + b * b
+            lo_t, hi_t = math.isqrt(t2), math.isqrt(t2) + 1
+            if a < T30 and b < T30:
+                bad = o[1] < lo_t - 2 or o[1] > hi_t + 2
+            else:
+                bad = abs(o[1] - lo_t) * 100000 > 15 * hi_t + 100000
+            if bad:
+                hit = (a, b, o)
+                break
+        if hit and reported < 1:
+            reported += 1
+            V.violation("hypot within 2 ulp / relative 1.5e-4 of sqrt(a^2+b^2)", "hypot", "hypot(%d, %d) [%s] %s but sqrt(a^2+b^2) = %d.. (%s)" % (
+                hit[0], hit[1], cfg, lib.out_str(hit[2]), math.isqrt(hit[0] ** 2 + hit[1] ** 2), why), lib.rp(r, (hit[0], hit[1]), "hypot accuracy"))
+        elif not hit and reported < 1:
+            V.inconc("w_hypot [%s]: accuracy not proved on %s (%s) and no violating pair found" % (cfg, cell, why))
+            reported += 0
+            if len(V.inconclusive) > 6:
+                break
+    return info
